@@ -82,6 +82,7 @@ MUTATIONS = {
         ('timeout', 'tonic/src/transport/service/grpc_timeout.rs', r'if timeout_value\.len\(\) > 8 \{', 'if timeout_value.len() > 9 {', 'nine digits accepted'),
         ('timeout', 'tonic/src/request.rs', r"try_format\(duration, 'm', \|d\| d\.as_millis\(\)\)", "try_format(duration, 'm', |d| d.as_micros())", 'millisecond unit written with microsecond value'),
         ('timeout', 'tonic/src/metadata/map.rs', r'GRPC_TIMEOUT_HEADER: &str = "grpc-timeout";', 'GRPC_TIMEOUT_HEADER: &str = "grpc-timeouts";', 'timeout written under another header name'),
+        ('serverconfig', 'tonic/src/transport/channel/endpoint.rs', r'timeout: Some\(dur\),\s*\.\.self', 'connect_timeout: Some(dur),\n            ..self', 'Endpoint::timeout sets the connect timeout instead'),
         ('serverconfig', 'tonic/src/transport/server/mod.rs', r'timeout: self\.timeout,', 'timeout: self.tcp_keepalive,', 'layer() loses the configured timeout'),
         ('serverconfig', 'tonic/src/transport/server/mod.rs', r'timeout: Some\(timeout\),', 'timeout: None,', 'timeout() setter stores nothing'),
     ],
